@@ -105,6 +105,13 @@ def projStale (cfg : Cfg) (tr : FS â†’ List Path â†’ Path â†’ Bool â†’ Outcome â
   | none => some S
   | some s => loopStale cfg tr (projFuel fs) s S
 
+/-- nothing is ever stale between an only-if-needed run and a verify run: the side condition is only
+    that no output path is a directory -/
+def trVerify (a : FS) (S : List Path) (src : Path) (_first : Bool) (_oc : Outcome) : Option (List Path) :=
+  match outputPath src with
+  | some o => if a.isDir o then none else if S.isEmpty then some [] else none
+  | none => if S.isEmpty then some [] else none
+
 def isSrcPath (p : Path) : Bool := match p.getLast? with | some n => PathName.isTxtppFile n | none => false
 
 /-- the paths of the tree that carry a txtpp source name, in the order of the tree -/
